@@ -69,7 +69,8 @@ ErrInDefects == ImplBuild # "ok" => ImplBuild \in Defects
 (* ---------------- the problem a successful build yields ---------------- *)
 \* data the replay uses for the LAST call of each kind (earlier calls get other data)
 YData(r, c) == [i \in 1..r |-> [s \in 1..c |-> ((i * i + s) % 4) - 1]]
-WData(n) == [i \in 1..n |-> 2]
+\* (alternating signs: the problem carries the weights it was given, not their modulus)
+WData(n) == [i \in 1..n |-> IF i % 2 = 0 THEN -2 ELSE 2]
 M == IF L >= 2 THEN 2 ELSE 1
 Instance == [fam |-> Fam("ORTH", M, 1, 0), x |-> XGrid(L), Y |-> YData(y.r, y.c),
              w |-> IF w = -1 THEN <<>> ELSE WData(w)]
